@@ -121,3 +121,94 @@ func checkSingleDeadLetter(w *World, r *Report, rule string) {
 		r.Check(ok && anyOf(DL), rule, fname(fn)+":at-most-one-dead-letter", "no path publishes two DeadLetterEvents for one send", w.fnPos(fn), d)
 	}
 }
+
+// checkContextFixed: a process keeps one Context for its whole life (children and parent link live in it).
+func checkContextFixed(w *World, r *Report, rule string) {
+	procT := w.Named("actor", "process")
+	if procT == nil {
+		r.Unknown(rule, "process.context:writers", "actor.process", "-", "not found")
+		return
+	}
+	var writers []string
+	for _, fn := range w.Funcs {
+		if !w.isLib(fn) || fnPkgPath(fn) != modPath+"/actor" {
+			continue
+		}
+		for _, b := range fn.Blocks {
+			for _, in := range b.Instrs {
+				if st, ok := in.(*ssa.Store); ok {
+					if fa, ok := st.Addr.(*ssa.FieldAddr); ok && isFieldOf(fa, procT, "context") {
+						if _, fresh := fa.X.(*ssa.Alloc); !fresh {
+							writers = append(writers, fname(fn)+" at "+w.pos(st.Pos()))
+						}
+					}
+				}
+			}
+		}
+	}
+	r.Check(len(writers) == 0, rule, "process.context:writers", "the process's Context (children map, parent link) is created once by the constructor and never replaced", w.fnPos(w.Func("actor", "newProcess")),
+		"the Context is replaced at "+strings.Join(writers, ", ")+": after a restart the actor forgets its children (they are no longer stopped with it, Children() is empty) or its parent")
+}
+
+// checkCancelDeferred: the stop function's cancel runs even if the Stopped handler panics.
+func checkCancelDeferred(w *World, r *Report, rule string) {
+	pr := w.findProcRoles()
+	if pr.fail(r, rule) {
+		return
+	}
+	g := w.FG(pr.stopFn)
+	var cancelP *ssa.Parameter
+	for _, p := range pr.stopFn.Params {
+		if isCancelFunc(p.Type()) {
+			cancelP = p
+		}
+	}
+	if cancelP == nil {
+		r.Unknown(rule, fname(pr.stopFn)+":cancel-deferred", "the stop function takes the caller's cancel", w.fnPos(pr.stopFn), "no CancelFunc parameter")
+		return
+	}
+	def := make([]bool, len(g.ins))
+	for _, d := range g.defers {
+		if g.ins[d].(*ssa.Defer).Call.Value == ssa.Value(cancelP) {
+			def[d] = true
+		}
+	}
+	isNil, _ := w.nilEdges(g, "P1")
+	cut := map[Edge]bool{}
+	for _, e := range isNil {
+		cut[e] = true
+	}
+	reach := g.reach(g.entry(), def, cut)
+	ok := anyOf(def)
+	for _, d := range members(w.Nodes(g, pr.evDeliver(), false)) {
+		if reach[d] {
+			ok = false
+		}
+	}
+	// also nothing that can block or panic in user code before the defer: the children wait
+	r.Check(ok, rule, fname(pr.stopFn)+":cancel-deferred", "a non-nil cancel is deferred before the Stopped delivery, so it also runs when the Stopped handler panics", w.fnPos(pr.stopFn),
+		"cancel is called by a plain statement after the Stopped delivery: a panic in the Stopped handler unwinds past it and the Stop/Poison context (and a waiting parent) hangs forever")
+}
+
+// checkMaxRestartsOpt: the restart budget given at spawn is the one used, for every n >= 0.
+func checkMaxRestartsOpt(w *World, r *Report, rule string) {
+	fn := w.Func("actor", "WithMaxRestarts")
+	if fn == nil || len(fn.AnonFuncs) != 1 {
+		r.Unknown(rule, "WithMaxRestarts", "actor.WithMaxRestarts returns one option closure", "-", "not found")
+		return
+	}
+	cf := fn.AnonFuncs[0]
+	g := w.FG(cf)
+	st := make([]bool, len(g.ins))
+	for i, in := range g.ins {
+		if s, ok := in.(*ssa.Store); ok {
+			if fa, ok := s.Addr.(*ssa.FieldAddr); ok {
+				if name, _ := fieldName(fa); name == "MaxRestarts" && w.pathOf(s.Val) == "conv<int32>(FV:n)" {
+					st[i] = true
+				}
+			}
+		}
+	}
+	r.Check(g.Once(st), rule, "WithMaxRestarts:stores-n", "WithMaxRestarts(n) sets Opts.MaxRestarts = n on every path (0 included)", w.fnPos(fn),
+		"some values of n (e.g. 0) are ignored and the default budget applies: an actor spawned with MaxRestarts(0) is restarted")
+}
